@@ -237,9 +237,6 @@ func runC11(t *testing.T, tp *simrt.Tape, keepTrace bool) hx.Result {
 				continue
 			}
 			got, wantH := res.Files, want
-			if hasBranchesRepos(q) {
-				got, wantH = stripBranches(got), stripBranches(wantH)
-			}
 			gotN := map[string]int{}
 			for _, x := range normFiles(got, false) {
 				gotN[x]++
